@@ -247,3 +247,108 @@ pub fn c10_step_in_codestream() {
     kani::cover!(matches!(o, StepOut::Event(Ev { kind: 2, len: 20, .. })), "20 bytes of codestream");
     kani::cover!(matches!(o, StepOut::Event(Ev { kind: 3, .. })), "no more aux boxes");
 }
+
+/// All events of one `feed_bytes` call (at most 4), with data events given as (offset, len) in
+/// the coordinates of the whole buffer.
+fn feed_all(parser: &mut ContainerParser, buf: &[u8], base: usize, out: &mut [Ev; 8], n: &mut usize) -> bool {
+    let mut it = parser.feed_bytes(buf);
+    let mut guard = 0;
+    loop {
+        guard += 1;
+        if guard > 4 {
+            // more events than the bound of this harness
+            kani::assume(false);
+        }
+        match it.next() {
+            None => return true,
+            Some(Ok(ev)) => {
+                let d = digest(buf, base, &ev);
+                let e = Ev { kind: d.kind, ty: d.ty, off: d.off, len: d.len, flag: d.flag };
+                // merge contiguous data fragments of the same stream
+                if *n > 0 && (e.kind == 2 || e.kind == 5) && out[*n - 1].kind == e.kind && out[*n - 1].ty == e.ty
+                    && out[*n - 1].off + out[*n - 1].len == e.off
+                {
+                    out[*n - 1].len += e.len;
+                } else if !((e.kind == 2 || e.kind == 5) && e.len == 0) {
+                    out[*n] = e;
+                    *n += 1;
+                }
+            }
+            Some(Err(e)) => {
+                core::mem::forget(e);
+                return false;
+            }
+        }
+    }
+}
+
+/// Feeding `buf` whole vs. cut at `k` (unconsumed bytes re-offered, as the API requires) from
+/// parser state `pre`.
+fn chunk_commutes(pre: CState, buf: &[u8; 12], len: usize, k: usize) {
+    let mut whole = ContainerParser::verif_with_state(&to_real(&pre));
+    let mut ea = [EV_NONE; 8];
+    let mut na = 0;
+    let ok_a = feed_all(&mut whole, &buf[..len], 0, &mut ea, &mut na);
+    let ca = whole.previous_consumed_bytes();
+
+    let mut split = ContainerParser::verif_with_state(&to_real(&pre));
+    let mut eb = [EV_NONE; 8];
+    let mut nb = 0;
+    let ok_b1 = feed_all(&mut split, &buf[..k], 0, &mut eb, &mut nb);
+    let c1 = split.previous_consumed_bytes();
+    let mut ok_b = ok_b1;
+    let mut cb = c1;
+    if ok_b1 {
+        let ok_b2 = feed_all(&mut split, &buf[c1..len], c1, &mut eb, &mut nb);
+        ok_b = ok_b2;
+        cb = c1 + split.previous_consumed_bytes();
+    }
+    assert!(ok_a == ok_b);
+    if ok_a {
+        assert!(ca == cb);
+        assert!(na == nb);
+        let i: usize = kani::any();
+        kani::assume(i < na);
+        assert!(ea[i] == eb[i]);
+        let sa = whole.verif_state();
+        let sb = split.verif_state();
+        assert!(sa == sb);
+    }
+    kani::cover!(ok_a && na >= 2 && k > 0 && k < len, "two events, proper cut");
+}
+
+// @prop C09 C10 C11
+// @tier quick
+// @unit jxl_bitstream::container::{ContainerParser::{feed_bytes,previous_consumed_bytes},ParseEvents::next} from the data states InCodestream and InAuxBox
+// @sym parser state within the arm (byte counters any value, brob type), 12 buffer bytes, length 1..=12, cut position 0..=length
+// @bound one buffer of <= 12 bytes cut once; at most 4 events per feed call
+// @oblig feeding the buffer whole, or a prefix followed by the unconsumed rest, gives the same events (data fragments concatenated), the same successor state and the same total number of consumed bytes; an error in one run is an error in the other
+#[kani::proof]
+#[kani::unwind(14)]
+pub fn c09_container_chunking_commutes_data_states() {
+    let buf: [u8; 12] = kani::any();
+    let len: usize = kani::any();
+    let k: usize = kani::any();
+    kani::assume(len >= 1 && len <= 12 && k <= len);
+    let arm: u8 = if kani::any() { 3 } else { 4 };
+    let pre = any_state_in_arm(arm);
+    chunk_commutes(pre, &buf, len, k);
+}
+
+// @prop C09 C10 C11
+// @tier thorough
+// @unit jxl_bitstream::container (as the data-state harness) from WaitingBoxHeader and WaitingJxlpIndex
+// @sym parser bookkeeping state, 12 buffer bytes holding a box header (32-bit size forms) and payload, cut anywhere incl. inside the header
+// @bound one buffer of <= 12 bytes cut once
+// @oblig as the data-state harness; in particular a cut inside a box header or jxlp index only delays the events
+#[kani::proof]
+#[kani::unwind(14)]
+pub fn c09_container_chunking_commutes_header_states() {
+    let buf: [u8; 12] = kani::any();
+    let len: usize = kani::any();
+    let k: usize = kani::any();
+    kani::assume(len >= 1 && len <= 12 && k <= len);
+    let arm: u8 = if kani::any() { 1 } else { 2 };
+    let pre = any_state_in_arm(arm);
+    chunk_commutes(pre, &buf, len, k);
+}
